@@ -10,7 +10,7 @@ func init() { Registry["C12"] = c12 }
 
 var c12Contracts = []string{
 	// AMF identifier, PLMN, 5G-GUTI: both directions plus round-trip lemmas
-	"nasConvert.AmfIdToModels", "nasConvert.AmfIdToNasWithError",
+	"nasConvert.AmfIdToModels", "nasConvert.AmfIdToNasWithError", "nasConvert.AmfIdToNas",
 	"nasConvert.PlmnIDToString", "nasConvert.PlmnIDToNas",
 	"nasConvert.GutiToStringWithError", "nasConvert.GutiToNasWithError",
 	"nasConvert.verifLemmaAmfIdRoundTrip", "nasConvert.verifLemmaAmfIdTextRoundTrip",
@@ -28,7 +28,7 @@ var c12Contracts = []string{
 
 // wrappers and dispatchers: safety only (their callees carry the functional contracts)
 var c12Safety = []string{
-	"nasConvert.AmfIdToNas", "nasConvert.SuciToString", "nasConvert.NaiToString", "nasConvert.naiToString",
+	"nasConvert.SuciToString", "nasConvert.NaiToString", "nasConvert.naiToString",
 	"nasConvert.GutiToString", "nasConvert.GutiToNas", "nasConvert.PeiToString", "nasConvert.GetTypeOfIdentity",
 	"(*nasType.MobileIdentity5GS).GetTypeOfIdentity", "(*nasType.MobileIdentity5GS).GetMobileIdentity",
 }
